@@ -21,10 +21,12 @@ OUTSIDE = ['trivia runs longer than the bound; blanks longer than 2; '
 
 
 def kernel(x, p):
-    n = p['n']
     at_start = p['at_start']
     at_eof = p['at_eof']
-    shapes = K.lexer_shapes(n, at_eof)
+    if 'shapes' in p:
+        shapes = [list(s) for s in p['shapes']]
+    else:
+        shapes = K.lexer_shapes(p['n'], at_eof)
     shape = x.choice('shape', shapes)
     x.tag(' '.join(shape))
     run = K.make_run(x, shape)
@@ -132,9 +134,20 @@ def params(ns, indents):
     return out
 
 
+# longer runs of particular interest (blank-line runs with blanks on some of
+# the lines, comments between blank lines), blanks and bodies still symbolic
+LONG = [['nl', 'sp', 'nl', 'nl'], ['nl', 'nl', 'sp', 'nl'],
+        ['nl', 'sp', 'nl', 'sp', 'nl'], ['sp', 'nl', 'sp', 'nl', 'sp', 'nl'],
+        ['crlf', 'sp', 'crlf', 'crlf'], ['nl', 'sp', 'nl', 'nl', 'sp'],
+        ['nl', 'nl', 'c--', 'nl'], ['nl', 'sp', 'c//', 'nl', 'nl', 'nl'],
+        ['sp', 'c--', 'nl', 'sp', 'nl', 'nl', 'sp']]
 HARNESSES = [
     Harness('kernel', kernel,
-            quick=params((1, 2), ((1, 2),)) + params((1,), ((0, 2), (2, 1))),
+            quick=params((1, 2), ((1, 2),)) + params((1,), ((0, 2), (2, 1))) +
+            [dict(Q, shapes=LONG, at_start=a, at_eof=False, indent=1,
+                  width=2) for a in (False, True)] +
+            [dict(Q, shapes=[s for s in LONG if s[-1] not in ('c--', 'c//')],
+                  at_start=False, at_eof=True, indent=1, width=2)],
             thorough=params((1, 2), ((0, 2), (1, 2), (2, 2), (1, 0),
                                      (1, 3))) +
             [dict(Q, n=3, at_start=a, at_eof=e, indent=1, width=2,
